@@ -119,6 +119,9 @@ func ruleDbIterGuards(p *Prog, r *Report, rule string) {
 		checkGuard(p, r, GuardSpec{Rule: "prev-key-copied", Fn: fn, Starts: after(fn, parse), Target: storeF("key"), TargetDesc: "store to i.key", Atoms: atoms, G: G, GDesc: gd, Avoid: orPred(parse, innerPrev), MinTargets: 1})
 		// stop (return true) inside the loop only when a visible entry of a SMALLER user key is seen and the candidate is not deleted
 		less := cmpAtom("uCompare(ukey,i.key)<0", token.LSS, mCall(fUCompare), mConstInt(0))
+		// conversely: every visible value entry that does not end the scan becomes the candidate (the
+		// newest visible version seen last wins); skipping one presents an older version
+		checkGuardExact(p, r, GuardSpec{Rule: "prev-candidate-updated", Fn: fn, Starts: after(fn, parse), Target: storeF("key"), TargetDesc: "the entry becomes the candidate (i.key/i.value)", Atoms: []Atom{kerrNil, seqOK, isDel, less}, G: func(a []bool) bool { return a[0] && a[1] && !a[2] && !a[3] }, GDesc: "kerr==nil ∧ seq<=i.seq ∧ kind≠Del ∧ same-or-greater user key", Avoid: parse}, orPred(innerPrev, isReturn), "the next raw entry / return")
 		checkGuard(p, r, GuardSpec{Rule: "prev-stop", Fn: fn, Starts: after(fn, parse), Target: retConstBool(true), TargetDesc: "return true from inside the backward scan", Atoms: []Atom{kerrNil, seqOK, less}, G: func(a []bool) bool { return a[0] && a[1] && a[2] }, GDesc: "kerr==nil ∧ seq<=i.seq ∧ uCompare(ukey,i.key)<0", Avoid: orPred(parse, innerPrev), MinTargets: 1})
 	}
 	if fn := resolveFn(p, r, "leveldb", "(*dbIter).Prev"); fn != nil {
